@@ -2,3 +2,4 @@ import Lungo.Model.Value
 import Lungo.Model.Num
 import Lungo.Model.Compare
 import Lungo.Model.Json
+import Lungo.Model.Codec
